@@ -2348,3 +2348,51 @@ Q(name="e2_detect_lost_iteration_slice", props=["C12"], func=r"connection/mod\.r
   functions=["Connection::detect_lost_packets (slice: one iteration of the scan over unacknowledged packets below the largest acknowledged one)"], pre=lambda c: "true", post=dlp_post,
   bounds="one iteration of the loss scan from an ARBITRARY state (any packet, send time, thresholds, loop-carried variables): the packet is declared lost exactly when (RFC 9002 6.1) it was sent at least loss_delay before now or at least packet_threshold packets before the largest acknowledged one; a lost packet is pushed onto lost_packets exactly once with its own number, except the in-flight MTU probe, which is recorded as lost_mtu_probe instead; otherwise the packet stays outstanding; Instant::saturating_duration_since is opaque (asked about now and this packet's send time); the u64 overflow of packet + packet_threshold (config value near 2^64) is outside the claim",
   replay=("conn_detect_lost_native", lambda m: [dict(age_ms=10), dict(age_ms=1124), dict(age_ms=1125), dict(age_ms=5000)]))
+
+
+# ------------------------------------------------------------------ C17 / C01: after a Retry every early stream is scheduled again in full, its FIN included (one loop iteration, slice)
+def _r0_keys(c):
+    base = "**%s.0.0" % c.fn.debug["stream"][0]                # stream: &mut Box<Send>
+    pend = base + ".%d" % c.field("connection/streams/send.rs", "Send", "pending")
+    sb = lambda n: pend + ".%d" % c.field("connection/send_buffer.rs", "SendBuffer", n)
+    return base, sb
+
+
+def r0_pre(c):
+    base, sb = _r0_keys(c)
+    state = base + ".%d" % c.field("connection/streams/send.rs", "Send", "state")
+    # 0-RTT: nothing can have been acknowledged yet
+    return and_(eq(c.inp(sb("unacked_len"), BV64), c.inp(sb("offset"), BV64)), ule(c.inp(sb("unsent"), BV64), c.inp(sb("offset"), BV64)),
+                or_(not_(eq(c.inp(state + "#discr", I64), bv(1))), not_(c.inp(state + "@DataSent.0", BOOL))))
+
+
+def r0_post(c, p):
+    st = p.p.state
+    if p.p.outcome != "stop":
+        return "true"
+    base, sb = _r0_keys(c)
+    state = base + ".%d" % c.field("connection/streams/send.rs", "Send", "state")
+    finp = base + ".%d" % c.field("connection/streams/send.rs", "Send", "fin_pending")
+    off = c.inp(sb("offset"), BV64)
+    unsent0, unsent1 = c.inp(sb("unsent"), BV64), c.ex.read_key(st, sb("unsent"), BV64).t
+    fin0, fin1 = c.inp(finp, BOOL), c.ex.read_key(st, finp, BOOL).t
+    finished = eq(c.inp(state + "#discr", I64), bv(c.ex.enums["SendState"].index("DataSent")))
+    data_left = "(bvult %s %s)" % (unsent1, off)
+    pushes = p.called(r"PendingStreamsQueue::push_pending$")
+    if len(pushes) > 1:
+        return "false"
+    empties = p.called(r"RangeSet::is_empty$")
+    was_pending = or_(not_(eq(unsent0, off)), fin0, *[not_(c.ex.read_key(st, x[2], BOOL).t) for x in empties])
+    return and_(eq(unsent1, bv(0)),                                           # everything written so far goes out again
+                or_(not_(finished), fin1, data_left),                         # a finished stream sends its FIN again (alone or with the last data)
+                or_(not_(or_(data_left, fin1)), "true" if pushes else was_pending))   # and whatever is to be sent is queued
+
+
+Q(name="e2_retransmit_all_for_0rtt_iteration", props=["C17", "C01"], func=r"streams/state\.rs:\d+:1: \d+:18>::retransmit_all_for_0rtt$",
+  src="connection/streams/state.rs", within=r"fn retransmit_all_for_0rtt\(", start_line=r"if stream\.pending\.is_fully_acked\(\) && !stream\.fin_pending \{",
+  end_line=[r"(?#loophead)for index in 0\.\.self\.next\[dir as usize\] \{"],
+  allowed_panics=r".", check_stop=True, inline=[r"is_fully_acked$", r"Send::is_pending$", r"SendBuffer::retransmit_all_for_0rtt$", r"has_unsent_data$"],
+  functions=["StreamsState::retransmit_all_for_0rtt (slice: the body of the per-stream loop)", "SendBuffer::retransmit_all_for_0rtt", "SendBuffer::is_fully_acked", "Send::is_pending"],
+  pre=r0_pre, post=r0_post,
+  bounds="one iteration of the per-stream loop that runs when a Retry has discarded every 0-RTT packet, from an ARBITRARY stream state in which nothing is acknowledged (unacked_len = offset, unsent <= offset, FIN unacknowledged): afterwards the whole written prefix is scheduled again (unsent = 0), a finished stream will send its FIN again - on its own when it has no data - and a stream with anything to send is in the pending queue",
+  replay=("streams_retransmit_all_0rtt_native", lambda m: [dict(len_=0, partial=0), dict(len_=10, partial=0), dict(len_=200, partial=1), dict(len_=0, partial=1)]))
